@@ -218,3 +218,156 @@ class Transport:
         self.failed = False
         self.closed = False
         self.writes = 0
+
+
+class Lock:
+    def __init__(self) -> None:
+        self.held = False
+
+    async def __aenter__(self):
+        await Until(lambda: not self.held, "lock")
+        self.held = True
+
+    async def __aexit__(self, *a):
+        self.held = False
+
+
+EOF_MARK = object()
+
+
+class AppBoom(Exception):
+    pass
+
+
+class ProtoRig:
+    """The server side of one connection: the real ProtocolWrapper (H11Protocol / H2Protocol /
+    streams) on top of the driver, a reader task mirroring TCPServer._read_data and a
+    protocol_send mirroring TCPServer.protocol_send (worker = "asyncio" | "trio")."""
+
+    def __init__(self, app, config, driver: Optional[Driver] = None, alpn: str = "http/1.1", ssl: bool = False,
+                 worker: str = "asyncio", max_requests: Optional[int] = None, state=None) -> None:
+        from hypercorn.app_wrappers import ASGIWrapper
+        from hypercorn.protocol import ProtocolWrapper
+        from hypercorn.typing import ConnectionState
+
+        self.driver = driver or Driver()
+        self.config = config
+        self.context = RigContext(self.driver, max_requests)
+        self.tg = RigTaskGroup(self.driver)
+        self.transport = Transport()
+        self.worker = worker
+        self.events: list = []          # ("Updated", idle) / ("Closed",) in order, with the bytes written so far
+        self.closed = False
+        self.idle: Optional[bool] = None
+        self.lock = Lock()
+        self.inbox = BoundedQueue(0)
+        self.handler_errors: list = []
+        self.protocol = ProtocolWrapper(ASGIWrapper(app), config, self.context, self.tg, ConnectionState(state or {}), ssl,
+                                        ("10.0.0.1", 4321), ("10.0.0.2", 443 if ssl else 80), self.protocol_send, alpn)
+        self.reader = self.driver.spawn("reader", self._reader())
+
+    async def protocol_send(self, event) -> None:
+        from hypercorn.events import Closed, RawData, Updated
+
+        if isinstance(event, RawData):
+            async with self.lock:
+                t = self.transport
+                if t.failed or t.closed or (t.fail_after is not None and t.fail_after <= 0):
+                    t.failed = True
+                    await self.protocol.handle(Closed())
+                else:
+                    if t.fail_after is not None:
+                        t.fail_after -= 1
+                    t.written += event.data
+                    t.writes += 1
+                    await Until(lambda: not t.paused or t.failed or t.closed, "drain")
+        elif isinstance(event, Closed):
+            self.events.append(("Closed", len(self.transport.written)))
+            self._close()
+            if self.worker == "trio":
+                await self.protocol.handle(Closed())
+        elif isinstance(event, Updated):
+            self.idle = event.idle
+            self.events.append(("Updated", event.idle, len(self.transport.written)))
+
+    def _close(self) -> None:
+        if not self.closed:
+            self.closed = True
+            self.transport.closed = True
+            self.inbox.items.append(EOF_MARK)
+
+    async def _reader(self) -> None:
+        from hypercorn.events import Closed, RawData
+
+        await self.protocol.initiate()
+        while True:
+            item = await self.inbox.get()
+            if item is EOF_MARK:
+                break
+            await self.protocol.handle(RawData(item))
+            if self.worker == "trio" and item == b"":
+                break
+        await self.protocol.handle(Closed())
+
+    # ---- client side actions
+    def feed(self, data: bytes) -> None:
+        self.inbox.items.append(bytes(data))
+
+    def eof(self) -> None:
+        self.inbox.items.append(EOF_MARK)
+
+    def run(self, **kw) -> str:
+        return self.driver.run(**kw)
+
+    def take_written(self) -> bytes:
+        data = bytes(self.transport.written)
+        return data
+
+
+def scripted_app(scripts, records, driver: Driver, default=None):
+    """ASGI application whose k-th instance executes scripts[k] (a list of steps):
+    ("send", msg_dict) ("recv",) ("recv_all",) ("raise",) ("return",) ("sleep", seconds).
+    Each instance appends a record {"scope", "received", "sends"} to `records`."""
+
+    async def app(scope, receive, send):
+        k = len(records)
+        rec = {"scope": scope, "received": [], "sends": [], "finished": False}
+        records.append(rec)
+        steps = scripts[k] if k < len(scripts) else (default or [("recv_all",)])
+        from .rig import exn_tag
+
+        for st in steps:
+            if st[0] == "send":
+                try:
+                    await send(st[1])
+                    rec["sends"].append(["ok"])
+                except Exception as e:  # noqa: BLE001
+                    rec["sends"].append(["raise", exn_tag(e)])
+            elif st[0] == "recv":
+                rec["received"].append(await receive())
+            elif st[0] == "recv_all":
+                while True:
+                    m = await receive()
+                    rec["received"].append(m)
+                    if m["type"] in ("http.disconnect", "websocket.disconnect"):
+                        break
+                    if m["type"] == "http.request" and not m.get("more_body"):
+                        break
+            elif st[0] == "recv_until_disconnect":
+                while True:
+                    m = await receive()
+                    rec["received"].append(m)
+                    if m["type"] in ("http.disconnect", "websocket.disconnect"):
+                        break
+            elif st[0] == "mark":
+                await Checkpoint()
+                rec.setdefault("marks", []).append(st[1]())
+            elif st[0] == "raise":
+                raise AppBoom()
+            elif st[0] == "return":
+                break
+            elif st[0] == "sleep":
+                await driver.sleep(st[1])
+        rec["finished"] = True
+
+    return app
